@@ -153,7 +153,11 @@ func (k *c02Kern) sync() {
 			}
 			continue
 		}
-		_ = id
+		if old, had := k.shSlots[s]; had && old == id && VThorough() {
+			// thorough tier: an unchanged inner-map id is taken as unchanged content (every reload creates new
+			// inner maps); the quick tier re-reads every occupied slot, so an in-place update would be seen there
+			continue
+		}
 		im, err := ebpf.NewMapFromID(ebpf.MapID(id))
 		if err != nil {
 			k.envFail = append(k.envFail, fmt.Sprintf("BPF_MAP_GET_FD_BY_ID (needs CAP_SYS_ADMIN) on the inner LPM map of slot %d: %v", s, err))
